@@ -277,6 +277,20 @@ def run(c, prog, ctx):
     pair_ok = arr is not None and re.search(r"array\{tuple\{elem\(arg1\.input\)\.asset_issuance\.amount, transaction::TxIn::issuance_ids\(elem\(arg1\.input\)\)\.0\}, tuple\{elem\(arg1\.input\)\.asset_issuance\.inflation_keys, transaction::TxIn::issuance_ids\(elem\(arg1\.input\)\)\.1\}\}", arr) is not None
     c.inst("R6.verify-sibling", "verify_tx_amt_proofs builds its domain in the same order: utxo generator, then (amount -> asset id), then (inflation keys -> token id), skipping Null amounts", order_ok and pair_ok,
            "domain pushes %s; pseudo-input array %s" % ([(d[0], d[1]) for d in dom], (arr or "")[:200]), VF.f.where(), VF.f.path)
+    # the issuance pseudo-inputs of the domain carry the ids computed by Input::issuance_ids; its rules are C11's (R2.pset-*),
+    # evaluated here because a wrong id makes the surjection proof of an issued asset impossible
+    from . import c11 as _c11
+    from ..report import Check as _Check
+    sub = _Check("C11", c.tier)
+    _c11.run(sub, prog, ctx)
+    n_b = 0
+    for (rule, k, okk, detail, where) in sub.instances:
+        if rule.startswith("R2.pset") or rule.startswith("R3.flag"):
+            parts = k.split("|")
+            c.instances.append(("R6.issuance-ids", "|".join(["R6.issuance-ids"] + parts[1:]), okk, "[C11 %s] %s" % (rule, detail), where))
+            n_b += 1
+    if n_b == 0:
+        raise CannotDecide("C11's PSET issuance-id rules produced no instance")
     # ------------------------------------------------------------- R7 fields written
     FB = prog.fn("pset::map::output::Output::is_fully_blinded")
     from ..mir import field_accesses
